@@ -78,3 +78,21 @@ Definition coverage_wf (c : coverage) : Prop :=
   | CovF1 l => strictly_sorted l
   | CovF2 rs => ranges_wf rs 0 0
   end.
+
+(* ---- contextual matching: a rule is matched against the glyphs the lookup does NOT skip.
+   `unskipped` = the glyphs that take part, in order; backtrack entries are compared, nearest first, with the
+   unskipped glyphs before the position (walking left), input and lookahead entries with the unskipped
+   glyphs after it (walking right). *)
+Definition unskipped (mt : match_type) (gd : option gdef) (l : list Z) : list Z := filter (match_glyph mt gd) l.
+
+(* every entry of the rule is satisfied by the glyph at the same rank *)
+Fixpoint prefix_check (es : list gt_entry) (l : list Z) : bool :=
+  match es, l with
+  | [], _ => true
+  | e :: es', g :: l' => check_entry e g && prefix_check es' l'
+  | _ :: _, [] => false
+  end.
+
+Definition context_matches_spec (gd : option gdef) (mt : match_type) (mc : match_context) (ids : list Z) (i : Z) : bool :=
+  prefix_check (gt_entries (mc_back mc)) (unskipped mt gd (rev (take i ids))) &&
+  prefix_check (gt_entries (mc_input mc) ++ gt_entries (mc_look mc)) (unskipped mt gd (drop (i + 1) ids)).
